@@ -158,9 +158,12 @@ def mtl_reference(prog2: gen.MTLProgram, agg):
     upd = {}
     rows = []
     for i, loss in enumerate(prog2.losses):
-        gs = torch.autograd.grad(loss, prog2.shared, retain_graph=True, allow_unused=True)
-        rows.append(torch.cat([(g if g is not None else torch.zeros_like(s)).reshape(-1)
-                               for g, s in zip(gs, prog2.shared)]))
+        if prog2.shared:
+            gs = torch.autograd.grad(loss, prog2.shared, retain_graph=True, allow_unused=True)
+            rows.append(torch.cat([(g if g is not None else torch.zeros_like(s)).reshape(-1)
+                                   for g, s in zip(gs, prog2.shared)]))
+        else:  # no shared parameter listed: the Jacobian has no column, nothing is aggregated
+            rows.append(torch.zeros(0, dtype=loss.dtype))
         own = prog2.tasks_params[i]
         if own:
             go = torch.autograd.grad(loss, own, retain_graph=True, allow_unused=True)
@@ -168,10 +171,65 @@ def mtl_reference(prog2: gen.MTLProgram, agg):
                 g = g if g is not None else torch.zeros_like(p)
                 upd[id(p)] = upd[id(p)] + g if id(p) in upd else g.clone()
     J = torch.stack(rows)
+    if J.shape[1] == 0:
+        return J, upd
     v = agg(J)
     for s, u in zip(prog2.shared, gen.split_like(v, prog2.shared)):
         upd[id(s)] = u
     return J, upd
+
+
+SHARED_MODES = ["all", "empty", "subset"]
+TASKS_MODES = ["asis", "all_empty", "first_empty", "last_empty", "some_empty", "subsets"]
+
+
+def mtl_restrict(prog: gen.MTLProgram, shared_mode: str, tasks_mode: str, seed: int) -> None:
+    """Edit IN PLACE which parameters of a gen.build_mtl program are LISTED in the call (deterministic in the
+    arguments, so twins get the same edit).  The graph is unchanged; a parameter that is no longer listed anywhere
+    is moved to ``other_leaves``: it still influences the losses but must not be touched.
+    shared_mode: 'all' | 'empty' (shared_params is an explicitly empty container: frozen trunk) | 'subset' (a strict
+    non-empty subset, order kept; with one shared parameter this is 'all').
+    tasks_mode: 'asis' | 'all_empty' (every task lists zero parameters) | 'first_empty' | 'last_empty' | 'some_empty'
+    (a random non-empty set of positions lists zero parameters) | 'subsets' (every task lists a random, possibly
+    empty, subset of its parameters)."""
+    rng = random.Random(seed * 7919 + 13)
+    before = prog.shared + [p for tp in prog.tasks_params for p in tp]
+    if shared_mode == "empty":
+        prog.shared = []
+    elif shared_mode == "subset" and len(prog.shared) >= 2:
+        k = rng.randint(1, len(prog.shared) - 1)
+        keep = sorted(rng.sample(range(len(prog.shared)), k))
+        prog.shared = [prog.shared[i] for i in keep]
+    elif shared_mode not in ("all", "subset"):
+        raise KeyError(shared_mode)
+    t = len(prog.tasks_params)
+    if tasks_mode == "all_empty":
+        drop = set(range(t))
+    elif tasks_mode == "first_empty":
+        drop = {0}
+    elif tasks_mode == "last_empty":
+        drop = {t - 1}
+    elif tasks_mode == "some_empty":
+        drop = set(rng.sample(range(t), rng.randint(1, t)))
+    elif tasks_mode in ("asis", "subsets"):
+        drop = set()
+    else:
+        raise KeyError(tasks_mode)
+    new = []
+    for i, own in enumerate(prog.tasks_params):
+        if i in drop:
+            new.append([])
+        elif tasks_mode == "subsets":
+            new.append([p for p in own if rng.random() < 0.6])
+        else:
+            new.append(list(own))
+    prog.tasks_params = new
+    listed = {id(p) for p in prog.shared} | {id(p) for tp in prog.tasks_params for p in tp}
+    seen = {id(p) for p in prog.other_leaves}
+    for p in before:
+        if id(p) not in listed and id(p) not in seen:
+            seen.add(id(p))
+            prog.other_leaves.append(p)
 
 
 def mtl_all_tensors(prog: gen.MTLProgram) -> list:
